@@ -499,7 +499,7 @@ def plan(tier, seed_value):
             for part in range(8):
                 specs.append({'kind': 'enumerate', 'index': index,
                               'part': part, 'parts': 8, 'depth': 1})
-    for stop in ('stop_current', 'stop_all'):
+    for stop in ('stop_current', 'stop_all', 'agent_stop'):
         for part in range(4):
             specs.append({'kind': 'fresh', 'stop': stop, 'part': part,
                           'parts': 4})
